@@ -348,6 +348,7 @@ def run(repo: Repo, ctx, descriptive: bool = False) -> None:
         raise AnalysisError(f'C02.R3: only {n_over} hook overrides found')
 
     _r4(repo, ctx)
+    _r5(repo, ctx)
 
 
 def _r4(repo: Repo, ctx) -> None:
@@ -427,3 +428,139 @@ def _r4(repo: Repo, ctx) -> None:
     ctx.ob('C02.R4', 'DeleteReferencedInheritingObject._get_ast:owned-rendered',
            ok, 'the DROP of an owned ref is not rendered on every path',
            da.loc, sample='owned -> super()._get_ast')
+
+
+def _mutates_list(n: ast.AST, var: str) -> bool:
+    if isinstance(n, ast.Call) and isinstance(n.func, ast.Attribute) and \
+            n.func.attr in ('remove', 'pop', 'insert', 'append', 'extend',
+                            'clear', 'sort', 'reverse') and \
+            norm(n.func.value) == var:
+        return True
+    if isinstance(n, (ast.Assign, ast.AugAssign, ast.Delete)):
+        tg = n.targets if isinstance(n, (ast.Assign, ast.Delete)) \
+            else [n.target]
+        return any(isinstance(t, ast.Subscript) and norm(t.value) == var
+                   for t in tg)
+    return False
+
+
+def _r5(repo: Repo, ctx) -> None:
+    from ..absint import Facts, must_pass
+    ctx.floor('C02.R5', 4)
+    # (a) no list is shrunk or grown while a for-loop iterates over it
+    n_loops = 0
+    for mn in ('edb.schema.inheriting', 'edb.schema.delta',
+               'edb.schema.referencing', 'edb.schema.ordering',
+               'edb.schema.objects', 'edb.schema.ddl'):
+        m = repo.module(mn)
+        for f in repo._funcs_of(m):
+            for loop in walk_no_nested(f.node):
+                if not (isinstance(loop, ast.For)
+                        and isinstance(loop.iter, ast.Name)):
+                    continue
+                n_loops += 1
+                var = loop.iter.id
+                bad = [norm(x)[:40] for b in loop.body for x in ast.walk(b)
+                       if _mutates_list(x, var) and getattr(
+                           getattr(x, 'func', None), 'attr', '') in (
+                           'remove', 'pop', 'insert', 'clear')
+                       or (isinstance(x, ast.Delete) and _mutates_list(
+                           x, var))]
+                if bad:
+                    ctx.saw(f)
+                ctx.ob('C02.R5', f'{f.qualname}:for-{var}@L'
+                       f'{loop.lineno - f.node.lineno}', not bad,
+                       f'{f.qualname} changes the length of `{var}` '
+                       f'({bad}) inside `for ... in {var}`: the element '
+                       f'after each removed one is skipped, so part of the '
+                       f'requested change is silently not applied', f.loc,
+                       sample='iterate over a copy', nontrivial=bool(bad))
+    if n_loops < 20:
+        raise AnalysisError(f'C02.R5: only {n_loops} name-iterating loops')
+    # (b) a position index of a list is rebuilt after every change of the list
+    cb = repo.func('edb.schema.inheriting.RebaseInheritingObject.'
+                   '_compute_new_bases')
+    ctx.saw(cb)
+    g = CFG(cb.node)
+    idx_defs = {}
+    for n in g.nodes:
+        if n.kind == 'stmt' and isinstance(n.ast, ast.Assign) and isinstance(
+                n.ast.value, ast.DictComp) and any(
+                isinstance(c, ast.Call) and dotted(c.func) == 'enumerate'
+                and c.args and isinstance(c.args[0], ast.Name)
+                for gen_ in n.ast.value.generators
+                for c in ast.walk(gen_.iter)):
+            lst = [c.args[0].id for gen_ in n.ast.value.generators
+                   for c in ast.walk(gen_.iter) if isinstance(c, ast.Call)
+                   and dotted(c.func) == 'enumerate'][0]
+            idx_defs.setdefault((norm(n.ast.targets[0]), lst), []).append(
+                n.id)
+    if not idx_defs:
+        raise AnalysisError('C02.R5: position index of _compute_new_bases '
+                            'not found')
+    for (ix, lst), defs in idx_defs.items():
+        muts = [n.id for n in g.nodes if n.ast is not None and any(
+            _mutates_list(x, lst) for e in g.node_exprs(n)
+            for x in ast.walk(e)) or (n.kind == 'stmt' and _mutates_list(
+                n.ast, lst))]
+        uses = [n.id for n in g.nodes if n.ast is not None
+                and n.id not in defs and any(
+                    isinstance(x, ast.Subscript) and norm(x.value) == ix
+                    and isinstance(x.ctx, ast.Load)
+                    for e in g.node_exprs(n) for x in ast.walk(e))]
+        stale = [m_ for m_ in muts
+                 if set(uses) & g.reachable([m_], avoid=defs)]
+        ctx.ob('C02.R5', f'_compute_new_bases:{ix}-fresh', not stale,
+               f'`{ix}` (positions in `{lst}`) is read after `{lst}` was '
+               f'changed without being rebuilt: a second EXTENDING ... '
+               f'BEFORE/AFTER clause is placed relative to stale positions, '
+               f'so base order (and with it ancestors / inherited pointer '
+               f'lineage) differs from the target', cb.loc,
+               sample=f'{ix} rebuilt after each insertion')
+    # (c) altering an inherited ref makes it owned -- also when the ALTER
+    #     carries no subcommand yet
+    ct = repo.func('edb.schema.referencing.AlterReferencedInheritingObject.'
+                   '_cmd_tree_from_ast')
+    ctx.saw(ct)
+    g = CFG(ct.node)
+    own = [n.id for n in g.nodes if n.kind == 'stmt'
+           and norm(n.ast) == "cmd.set_attribute_value('owned', True)"]
+    if not own:
+        raise AnalysisError('C02.R5: owned-marking of '
+                            'AlterReferencedInheritingObject not found')
+    F = Facts({'refctx is not None': True,
+               "qlast.get_ddl_field_command(astnode, 'owned') is None": True,
+               'cmd.get_subcommands()': False}, ct.node)
+    ok = must_pass(g, F, own) and 'cmd.get_subcommands()' in F.used
+    ctx.ob('C02.R5', 'AlterReferencedInheritingObject:empty-alter-owns', ok,
+           'an ALTER of an inherited ref that has no subcommand (yet) is '
+           'not marked owned (`not all(<empty>)` is False): e.g. ALTER '
+           'ANNOTATION x := v adds its value after this point, so the '
+           'replayed text leaves the annotation inherited and the subtype '
+           'loses its own value', ct.loc,
+           sample='no subcommands -> owned = True')
+    # (d) a change of inherited status counts in both directions
+    co = repo.func('edb.schema.objects.InheritingObject.'
+                   'compare_obj_field_value')
+    ctx.saw(co)
+    tests = [t for t in ast.walk(co.node) if isinstance(t, ast.If)
+             and 'our_ifs' in norm(t.test) or isinstance(t, ast.If)
+             and 'their_ifs' in norm(t.test)]
+    if len(tests) != 1:
+        raise AnalysisError('C02.R5: inherited-status test of '
+                            'compare_obj_field_value not found')
+    t = tests[0].test
+    sym = False
+    if isinstance(t, ast.Compare) and len(t.ops) == 1 and isinstance(
+            t.ops[0], (ast.NotEq, ast.Eq)):
+        sym = norm(t.left).replace('our', 'their') == norm(
+            t.comparators[0]) or norm(t.comparators[0]).replace(
+            'our', 'their') == norm(t.left)
+    onesided = any(isinstance(x, ast.BinOp) and isinstance(x.op, ast.Sub)
+                   for x in ast.walk(t))
+    ctx.ob('C02.R5', 'compare_obj_field_value:inherited-status-symmetric',
+           sym and not onesided,
+           f'the inherited-status test `{norm(t)}` is not symmetric in '
+           f'ours / theirs: a field that stops (or starts) being inherited '
+           f'while keeping its value is reported unchanged, so the script '
+           f'omits the statement that pins it', co.loc, sample=norm(t))
